@@ -19,6 +19,16 @@ class HarnessError(Exception):
     """The machinery itself is wrong (never a VIOLATION)."""
 
 
+class RunTimeout(Exception):
+    """Raised by the SIGALRM handler (lives here, not in worker.py, because `python -m
+    verifsim.worker` loads worker.py as __main__ and a second import would define a second,
+    different exception class)."""
+
+
+def alarm_handler(signum, frame):
+    raise RunTimeout()
+
+
 class Streams(object):
     """One integer decides everything: named sub-streams split from one master PRNG in a
     fixed order, so that a new draw in one stream never shifts another."""
